@@ -79,6 +79,12 @@ def gen_scenario(rng, bias=None):
                 if nxt is not None and rng.random() < 0.9:
                     p['aos'][f'{c}.{s}'] = nxt
         passes.append(p)
+    # a pass whose `new` rewrites the file in place (as LinesPass reformats it), keeping the result if the sanity check passes
+    if not contract and rng.random() < bias.get('p_fmt', 0.15):
+        q = passes[rng.randrange(npass)]
+        q['fmt'] = {str(c): [rng.randrange(nc) for _ in range(rng.randint(1, 2))] for c in range(nc) if rng.random() < 0.6}
+        q['fmt'] = {k: [a for a in v if str(a) != k and texts[a]] for k, v in q['fmt'].items()}
+        q['bail'] = rng.random() < 0.4
     # the same pass listed twice: with a different max-transforms (as the shipped groups do) or as an exact duplicate
     if npass >= 2 and rng.random() < bias.get('p_twin', 0.15):
         i, j = rng.sample(range(npass), 2)
@@ -278,6 +284,8 @@ def oracle_C09(scen, obs):
         disk[fi] = c
         if ev[0] == 'C' and tuple(disk) not in ok0:
             return 'committed-candidate-whose-test-did-not-exit-0'
+        if ev[0] == 'F' and tuple(disk) not in ok0:
+            return 'file-rewritten-by-new-without-a-passing-sanity-check'
     c = scen.get('consts', {})
     if obs['bug'] > c.get('MAX_CRASH_DIRS', 10) + 1 + scen['cfg'].get('bug0', 0):
         return 'too-many-bug-dirs'
